@@ -16,6 +16,8 @@ LINT_TYPES = {13, 20, 25, 30, 37, 50}   # "subsystem" / "function" timelines: li
 SPEC = [{"name": "A", "cpus": [(0, 3)], "procs": [{"pid": 100, "threads": [101]}]}]
 TID = 101
 X = Ev(0, "OHx", i32(0, TID) + i64(0))
+SPEC2 = [{"name": "A", "cpus": [(0, 3), (1, 5)], "procs": [{"pid": 100, "threads": [101]}, {"pid": 200, "threads": [201]}]}]
+X2 = [Ev(0, "OHx", i32(0, 101) + i64(0)), Ev(1, "OHx", i32(1, 201) + i64(0))]
 
 
 class NestRef(Ref):
@@ -240,6 +242,47 @@ def run(prop, tier):
                                       {"kind": "lint-balanced", "mcv": mcv})
                 ctx.part("lint-" + model, traces=len(tasks))
 
+                # ---- lint with two threads (two processes): the open region belongs to either thread, and either thread emits the last event
+                system2 = emusrv.System(SPEC2, require=req)
+                td2 = system2.write(scratch.sub("trace2-" + model))
+                pool2 = ServerPool(exe, td2, ["-l"])
+                try:
+                    tasks, meta = [], []
+                    for mcv, g in sorted(ref.enter.items()):
+                        if g["type"] not in LINT_TYPES:
+                            continue
+                        for who in (0, 1):
+                            oth = 1 - who
+                            for first in (who, oth):
+                                ends = [Ev(first, "OHe"), Ev(1 - first, "OHe")]
+                                tasks.append((X2 + [Ev(who, mcv)] + ends, [Fin(1)]))
+                                meta.append((mcv, g, who, first, True))
+                                tasks.append((X2 + [Ev(who, mcv), Ev(oth, mcv), Ev(oth, g["leave"])] + ends, [Fin(1)]))
+                                meta.append((mcv, g, who, first, True))
+                                tasks.append((X2 + [Ev(who, mcv), Ev(oth, mcv), Ev(oth, g["leave"]), Ev(who, g["leave"])] + ends, [Fin(1)]))
+                                meta.append((mcv, g, who, first, False))
+                    for (mcv, g, who, first, open_), (hres, pres) in zip(meta, pool2.expand_many(tasks)):
+                        ctx.add(evaluations=len(pres), transitions=len(pres))
+                        if not hres.get("ok"):
+                            if not open_:
+                                ctx.violation("two threads: balanced history with %s on both threads refused: %s" % (mcv, hres.get("msg")),
+                                              {"engine": "E3", "flags": pool2.flags, "spec": SPEC2, "mcv": mcv, "who": who, "first_end": first},
+                                              {"kind": "lint2-balanced", "mcv": mcv})
+                            continue
+                        r = pres[0]
+                        if open_ and r.ok:
+                            ctx.violation("lint mode accepted a two-thread trace in which thread %d ends inside %s (%s); thread %d ends first" % (
+                                who, mcv, g["label"], first),
+                                {"engine": "E3", "flags": pool2.flags, "spec": SPEC2, "mcv": mcv, "who": who, "first_end": first},
+                                {"kind": "lint-open-region-2threads", "mcv": mcv})
+                        if not open_ and not r.ok:
+                            ctx.violation("lint mode refused a balanced two-thread trace %s..%s: %s" % (mcv, g["leave"], r.msg),
+                                          {"engine": "E3", "flags": pool2.flags, "spec": SPEC2, "mcv": mcv, "who": who, "first_end": first},
+                                          {"kind": "lint2-balanced", "mcv": mcv})
+                    ctx.part("lint2-" + model, traces=len(tasks))
+                finally:
+                    pool2.close()
+
                 # ---- deep path: alternate two regions up to the stack limit
                 ents = sorted(k for k, g in ref.enter.items())
                 if len(ents) >= 2 and (tier != "quick" or model in ("nosv", "mpi")):
@@ -284,7 +327,8 @@ def run(prop, tier):
         ctx.cov["rule"] = ("per model: every state = open-region stacks (depth <= 2) of a running thread; in every state every documented "
                            "argument-less event of the model is probed (matching leave accepted, any other leave refused, enter accepted; "
                            "immediate re-entry either way) and the thread and CPU rows must show the golden value of the innermost region; "
-                           "plus state preconditions, lint on open regions, one depth-512 path and .pcf labels")
+                           "plus state preconditions, lint on open regions (one thread; two threads with the open region on either and either ending last), "
+                           "one depth-512 path and .pcf labels")
         ctx.cov["distinct_nontrivial"] = ctx.cov["states"]
         ctx.assumptions += ["golden/enter_values.json (event -> type,value,label) frozen after manual review against the documented descriptions",
                             "events with arguments (tasks, types) are covered by C07/C18", "nesting depth <= 2 plus one depth-512 path per model"]
